@@ -7,6 +7,15 @@ use std::sync::OnceLock;
 
 pub const T_MIN: i64 = 315_532_800; // 1980-01-01T00:00:00Z
 pub const T_MAX: i64 = 2_840_140_800; // 2060-01-01T00:00:00Z
+/// wide range for well-formed timestamps: 0001-01-02 .. 9998-12-30 (the local date stays in 0000-9999 in every zone)
+pub const T_WIDE_MIN: i64 = -62_135_510_400;
+pub const T_WIDE_MAX: i64 = 253_370_592_000;
+
+/// RFC 3339 offsets have no seconds: a local-mean-time offset (+03:21:04) is written rounded to minutes,
+/// and the local time is written relative to that written offset (so the text denotes the exact instant)
+pub fn written_offset(o: i32) -> i32 {
+    (o as f64 / 60.0).round() as i32 * 60
+}
 
 pub struct ZoneInfo {
     pub tz: Tz,
@@ -14,6 +23,8 @@ pub struct ZoneInfo {
     pub city: String,
     /// every zone sharing this city name has the same offsets at all probe instants
     pub in_scope: bool,
+    /// no other zone shares this city name (needed outside [T_MIN, T_MAX], where same-named zones were not compared)
+    pub unique: bool,
     /// first second of each new offset, within [T_MIN, T_MAX]
     pub transitions: Vec<i64>,
 }
@@ -75,6 +86,7 @@ pub fn zones() -> &'static Vec<ZoneInfo> {
                                 id: tz.name(),
                                 city: city_of(tz.name()),
                                 in_scope: true,
+                                unique: true,
                                 transitions: find_transitions(tz),
                             })
                             .collect::<Vec<_>>()
@@ -92,6 +104,9 @@ pub fn zones() -> &'static Vec<ZoneInfo> {
         for (_city, members) in groups.iter() {
             if members.len() < 2 {
                 continue;
+            }
+            for &m in members {
+                infos[m].unique = false;
             }
             // probe instants: all members' transitions +-1s, plus yearly samples
             let mut probes: Vec<i64> = (0..80).map(|y| T_MIN + y * 31_557_600 + 15_000_000).collect();
@@ -119,6 +134,12 @@ pub fn zones() -> &'static Vec<ZoneInfo> {
 
 pub fn in_scope_zones() -> Vec<&'static ZoneInfo> {
     zones().iter().filter(|z| z.in_scope).collect()
+}
+
+/// zones whose city name is unique: in scope at every instant, not only within [T_MIN, T_MAX]
+pub fn wide_scope_zones() -> &'static Vec<&'static ZoneInfo> {
+    static W: OnceLock<Vec<&'static ZoneInfo>> = OnceLock::new();
+    W.get_or_init(|| zones().iter().filter(|z| z.in_scope && z.unique).collect())
 }
 
 pub fn zone_by_id(id: &str) -> Option<&'static ZoneInfo> {
